@@ -66,6 +66,9 @@ ApiTable ==
   @@ ("multi_source" :> F("result", "any", {})) @@ ("multi_source_target" :> F("result", "any", {}))
   @@ ("all_pairs" :> F("result", "any", {"Err:EdgeWeightNotSpecified"}))
   @@ ("all_pairs_target" :> F("result", "any", {"Err:EdgeWeightNotSpecified"}))
+  (* the same three functions over the whole option grid (cutoff x first_only x with_paths, with and without a target) *)
+  @@ ("single_source_opts" :> F("result", "any", {})) @@ ("multi_source_opts" :> F("result", "any", {}))
+  @@ ("all_pairs_opts" :> F("result", "any", {"Err:EdgeWeightNotSpecified"}))
   @@ ("get_edge" :> F("result", "single", {"Err:EdgeNotFound"}))
   @@ ("get_edges" :> F("result", "multi", {"Err:EdgeNotFound"}))
   @@ ("breadth_first_search" :> F("none", "any", {}))
